@@ -18,9 +18,18 @@ CONFIG = {
                   "identifier nothing at all changed and the answer is BADIP/BADCODEC/dropped (reusing C13_foreign_message_preserves, C13_spoof_rejected); "
                   "C12_handlers_refuse_before_acting - regenerated fact: each session-bound handler tests the validation error before it looks at the "
                   "request; C12_witness_close_before_refusal - kernel-checked: with the close flag handled first a stranger retires the victim's session; "
+                  "C12_handler_no_missing_response_deref / _no_panic_reachable - the function miekg/dns calls for every query "
+                  "(NetConnectionServerCommunicator.handleRequest, modelled as: if onMessage returned an error then send nothing else dereference and "
+                  "write the response; 'returns on error' is the regenerated fact c12HandlerErrReturns) never dereferences a missing response: for "
+                  "every message, TSIG status and reachable state it writes onMessage's answer or, on error, sends nothing, and adds nothing to the "
+                  "state; C12_handler_resp_uses_dominated - regenerated, path-sensitive: every read of the response pointer in handleRequest is "
+                  "dominated by a test of the error returned with it; C12_witness_handler_falls_through - kernel-checked: a handler that goes on "
+                  "after the error is killed by the lookup c.<domain>. "
                   "C12_site_coverage — the regenerated inventory of "
                   "index/slice/assertion/func-field-call sites of the handler, decoders and record wrapping is contained in the list the models account for. "
-                  "Models tied to the real onMessage and DecodeDnsResponseWithParams by differential runs under recover.",
+                  "Models tied to the real handleRequest + onMessage (every message passes through the real communicator's registered handler: fake "
+                  "ResponseWriter under recover for all lines, real UDP and TCP sockets to a real miekg server in child processes for a slice) and to "
+                  "DecodeDnsResponseWithParams by differential runs under recover.",
     "level_note": "Partial: 'bounded work' is proved as bounds on the client-controlled quantities (fragment sizes, loop iteration counts of the model, "
                   "which is structurally recursive on the message) plus a measured allocation monitor (<= 24 MiB per message, 3 GiB address-space limit in a "
                   "child process for sizes >= 2^31); no cost semantics of the Go runtime. miekg/dns' own parser, messages with 0 or >1 questions "
@@ -32,7 +41,12 @@ CONFIG = {
                   "correspondence, the extractor.",
     "technique": "Lean 4 proof (panic-explicit Result-monad model, invariants) + regenerated panic-site inventory + model/code differential correspondence under recover",
     "components": [{"name": "dnsfuzz", "timeout": {"quick": 300, "thorough": 1500}}],
-    "rule": "dnsfuzz dec/enc: real Decode/Encode of each of the 8 registered codecs on the empty input, all 256 single octets and all 65536 octet pairs "
+    "rule": "Every srv message is delivered through the real NetConnectionServerCommunicator.handleRequest (result IGN = onMessage returned (nil, err), "
+            "DROP = (msg, err), nothing sent either way). dnsfuzz srv/net (handler): 167 lookup labels (ordinary host names, every command letter "
+            "both cases alone / +1 char / bad id / unknown id / live id) x 10 query types x sender stranger/owner x unsigned / TSIG validated / TSIG not "
+            "validated, between two established sessions that must still be served; 40 (thorough: all) stray commands and 40 histories with signed "
+            "queries; net udp|tcp: label lines, stray commands and histories through a real socket (quick 4 lines per network, thorough 66), a dead "
+            "server process = PANIC. dnsfuzz dec/enc: real Decode/Encode of each of the 8 registered codecs on the empty input, all 256 single octets and all 65536 octet pairs "
             "(monitor: PANIC in Decode/Encode of codec <c> on <hex>). dnsfuzz srv (byte coverage): for every negotiable upstream codec x every octet 0x00-0xFF "
             "(as miekg presents it; thorough also raw) a packet query whose body is the octet alone / a valid body with one character replaced / a valid "
             "body with the octet appended; dnsfuzz cli (byte coverage): for every downstream codec x every octet, each response letter followed by the octet, "
@@ -49,7 +63,10 @@ CONFIG = {
             "non-trivial = reached a decoded request / response. Monitor: no panic, allocation <= 24 MiB, other sessions untouched.",
     "trusted_base": COMMON_TB + ["models SA.Model.DnsServer / SA.Model.DnsServerClient / SA.Model.GoSlice hand-written; tied by per-op comparison of outcome class and session snapshot",
                                  "codecs are a parameter of the models (op line carries the real Decode results)",
-                                 "go/extract/x_c12.go: command table, codec codes, limits, panic-site inventory, shape of the handlers' first test after validateAndGetUser"],
-    "assumptions": ["messages carry exactly one question (miekg/dns delivers what was on the wire; 0 or several questions are outside the property's quantifier)",
+                                 "go/extract/x_c12.go: command table, codec codes, limits, panic-site inventory, shape of the handlers' first test after validateAndGetUser",
+                                 "go/extract/x_c12_handler.go: path-sensitive walk over handleRequest (uses of onMessage's response pointer and what dominates them)",
+                                 "handler model SA.Model.DnsHandler: each use of the response pointer is a dereference; miekg/dns' reader, mux and writer are upstream (driven for real in the net lines)"],
+    "assumptions": ["the listener has registered its onMessage before the first query is served (a query in the moment between ListenAndServe and RegisterAccept meets onMessage == nil)",
+                    "messages carry exactly one question (miekg/dns delivers what was on the wire; 0 or several questions are outside the property's quantifier)",
                     "enc.Encoder.Decode/Encode of every codec return normally (Codec.Total: hypothesis of the theorems; exhaustively checked on inputs of length <= 2 and on every generated input)"],
 }
